@@ -2291,7 +2291,40 @@ fn create_parser_thread(
                         .collect(),
                 );
 
+                // verification hook: "n:ms,n:ms,..." = sleep ms milliseconds after n further msgs
+                #[cfg(feature = "adlt_verif")]
+                let mut verif_schedule: std::collections::VecDeque<(u64, u64)> =
+                    std::env::var("ADLT_VERIF_PARSE_SCHEDULE")
+                        .unwrap_or_default()
+                        .split(',')
+                        .filter_map(|e| {
+                            let (n, ms) = e.split_once(':')?;
+                            Some((n.trim().parse().ok()?, ms.trim().parse().ok()?))
+                        })
+                        .collect();
+                #[cfg(feature = "adlt_verif")]
+                let mut verif_msgs_since_sleep = 0u64;
+
                 loop {
+                    #[cfg(feature = "adlt_verif")]
+                    {
+                        while let Some((n, ms)) = verif_schedule.front().copied() {
+                            if verif_msgs_since_sleep < n {
+                                break;
+                            }
+                            verif_schedule.pop_front();
+                            verif_msgs_since_sleep = 0;
+                            // sleep in small slices to keep reacting to shall_stop
+                            let mut left = ms;
+                            while left > 0 && !shall_stop.load(std::sync::atomic::Ordering::Relaxed)
+                            {
+                                let slice = std::cmp::min(left, 10);
+                                std::thread::sleep(std::time::Duration::from_millis(slice));
+                                left -= slice;
+                            }
+                        }
+                        verif_msgs_since_sleep += 1;
+                    }
                     match dlt_msg_iterator.next() {
                         Some(msg) => {
                             messages_processed += 1;
